@@ -9,7 +9,9 @@ import (
 	"golang.org/x/tools/go/ssa"
 )
 
-func init() { register("C04", "names follow lexical block scope; closures capture their defining scope", checkC04) }
+func init() {
+	register("C04", "names follow lexical block scope; closures capture their defining scope", checkC04)
+}
 
 // env-cell abstract values
 const (
